@@ -42,6 +42,9 @@ ASSUMPTIONS = [
     'for kernels marked automatic-tests: false whose definition is executable but disagrees with the compiled code, the '
     'definition is treated as unreliable (listed under spec_disagrees_autotests_false), not as a violation',
     'float specializations are exercised with integer-valued data; IEEE rounding is not modelled in Rocq',
+    'extreme offsets of 64-bit index types stay below 2^62 (kernels such as getitem_next_range_counts add two offsets '
+    'in int64_t before subtracting: signed overflow there is undefined behaviour that only offsets above 2^62 reach); '
+    'signed accumulators of reduce_sum/prod get at most one extreme input per group',
     'error status and message are compared; identity/attempt fields are compiled-only (the Python definitions have none)',
     'unstable std::sort kernels are compared up to: output is a permutation that realises the order',
     'reads outside extents are detected by PROT_NONE guard pages next to every buffer (alignment randomised) and, in the '
